@@ -116,10 +116,10 @@ package executors
 //@   loop 1 iteration-ensures [registered-before-confirmed] commandedNow ==> calls(pe.enterExecution) == 1 && calls(on("send", pe.confirmChan)) == 1 && before(enterExecution, on("send", pe.confirmChan)) && before(on("send", pe.confirmChan), executeTasks)
 //@   loop 1 iteration-ensures [batch-executed-once] commandedNow ==> calls(pe.executeTasks, ret(on("recv", pe.commander))) == 1 && calls(executeTasks) == 1 && pe.inflight == at_head(pe.inflight) - 1
 //@   loop 1 iteration-ensures [tick-executes-nothing-itself] !commandedNow ==> calls(enterExecution) == 0 && calls("send") == 0 && calls(executeTasks) == 0 && pe.inflight == at_head(pe.inflight)
-//@   ensures [quits-only-when-idle] calls(shallQuit) == 1 && ret(shallQuit) && calls(executeTasks) == 0
+//@   ensures [quits-only-when-idle] tail(calls(shallQuit) == 1 && ret(shallQuit) && calls(executeTasks) == 0)
 // every (re)started flusher ticks on a ticker of its own, created when it starts and stopped when it retires
 //@   ensures [ticker-created-by-this-flusher] calls(pe.newTicker, pe.interval) == 1 && calls(ret(pe.newTicker).Stop) == 1
-//@   ensures [final-flush-and-ticker-stopped] calls(pe.Flush) == 2 && calls(Stop) == 1
+//@   ensures [final-flush-and-ticker-stopped] tail(calls(pe.Flush) == 2 && calls(Stop) == 1)
 
 // Registration of an execution happens inside the barrier that Wait also passes through, so a Wait either sees the
 // execution registered or runs entirely before it; the sign-off is one Done.
